@@ -34,7 +34,7 @@ def register(R):
             "LimitOverrunError": [
                 ("remainder", f"exc.remaining_data == Resync(T, exc.consumed, {sep})", "C02"),
                 ("limit-case", f"({i} == -1 and exc.consumed == len(T) + 1 - len({sep}) and exc.consumed > self.__limit)"
-                               f" or ({i} >= 0 and exc.consumed == {i} and exc.consumed > self.__limit)", "C02 C07"),
+                               f" or ({i} >= 0 and exc.consumed == {i} and exc.consumed > self.__limit)", "C01 C02 C07"),
             ],
             "IncrementalDeserializeError": [
                 ("frame-found", f"{i} >= 0 and {i} <= self.__limit", "C02"),
